@@ -34,6 +34,20 @@ func genString(rng *Rand, max int) string {
 	if max <= 0 {
 		return ""
 	}
+	if rng.Chance(1, 5) {
+		// exactly the maximum length, ending in a multi-byte character when it fits
+		b := make([]byte, 0, max)
+		for len(b) < max-2 {
+			b = append(b, 'a'+byte(rng.Intn(26)))
+		}
+		if max-len(b) == 2 {
+			b = append(b, "é"...)
+		}
+		for len(b) < max {
+			b = append(b, 'z')
+		}
+		return string(b)
+	}
 	s := ""
 	for tries := 0; tries < 8; tries++ {
 		p := utf8Pool[rng.Intn(len(utf8Pool))]
